@@ -193,13 +193,17 @@ def gen_case(rng, gen_history, with_remote_failures):
     p_rd = rng.choice([0.0, 0.3, 0.7, 1.0])
     p_wr = rng.choice([0.0, 0.3, 0.7, 1.0])
     p_rq = rng.choice([0.2, 0.5, 0.8]) if with_remote_failures else 0.0
+    damaged_years = set()     # a year's file is damaged at most once per history: the rows lost are then exactly
+    # the rows of the last complete write that the reader no longer returns (damaging a damaged file again can
+    # make rows hidden by a first line of another field count visible again)
     for k, r in enumerate(runs):
         r["rd"] = gen_rd_script(rng, 12, p_rd)
         r["wr"] = gen_script(rng, 6, p_wr, [1])
         r["rq"] = gen_script(rng, 12, p_rq, [1, 1, 2])
         r["damage"] = []
         if cache == "csv" and k > 0 and rng.random() < 0.5:
-            for y in sorted({R.year_of(d) for d in r["lookups"]}):
+            for y in sorted({R.year_of(d) for d in r["lookups"]} - damaged_years):
+                damaged_years.add(y)
                 edits = []
                 for _ in range(rng.randint(1, 6)):
                     i = 0 if rng.random() < 0.15 else rng.randint(0, 40)
